@@ -222,9 +222,16 @@ def install_send(e):
     # ================================================================= WebSocket._send
     def _send_case(disp):
         def case(c):
+            import websocket._dispatcher as disp_mod
             ws = mk_ws(c, dispatcher=None)
-            if disp:
-                c.setf(ws, "dispatcher", c.new_ext("dispatcher"))
+            if disp == "builtin-dispatcher":
+                # the object WebSocketApp installs for its own select loop (DispatcherBase.send, contract in contracts/extra.py)
+                c.setf(ws, "dispatcher", c.alloc("obj", disp_mod.Dispatcher, dict(app=None, ping_timeout=c.fresh("real", "select_timeout"))))
+            elif disp == "external-dispatcher":
+                # the wrapper around a caller-supplied (rel-like) event loop (WrappedDispatcher.send)
+                c.setf(ws, "dispatcher", c.alloc("obj", disp_mod.WrappedDispatcher, dict(
+                    app=None, ping_timeout=c.fresh(("opt", "real"), "select_timeout"), dispatcher=c.new_ext("rel"),
+                    handleDisconnect=c.new_ext("callback"))))
             c.locks.append(c.getf(ws, "lock"))
             return dict(self=ws, data=c.fresh("bytes", "data"))
         return case
@@ -239,7 +246,8 @@ def install_send(e):
         return c.eq(z(c.ghost["wire"]), z(old.ghost["wire"]))
 
     def sock_none(c, old, a):
-        return z3.And(zn(old.getf(a["self"], "sock")), zn(old.getf(a["self"], "dispatcher")))
+        # C08: once the transport is gone every send raises connection-closed, whichever dispatcher object is installed
+        return zn(old.getf(a["self"], "sock"))
 
     def havoc_wire(c, a, old, k):
         c.ghost["wire"] = c.fresh("bytes", "wire")
@@ -247,7 +255,8 @@ def install_send(e):
     e.add(Contract("ext:dispatcher.send", assumed=True, result=lambda c, a: e.contracts["ext:sock.send"].result(c, dict(a, **{"$args": a["$args"][1:]})),
                    havoc=lambda c, a, old, k: None, raises=[(OSError, None, lambda c, old, a, exc: True)],
                    doc="custom dispatcher send(sock, data): like the transport's send (all-or-part of data appended to the wire)"))
-    e.add(Contract(K + "WebSocket._send", cases=[("builtin", _send_case(False)), ("dispatcher", _send_case(True))],
+    e.add(Contract(K + "WebSocket._send", cases=[("builtin", _send_case(None)), ("builtin-dispatcher", _send_case("builtin-dispatcher")),
+                                                 ("external-dispatcher", _send_case("external-dispatcher"))],
                    requires=lambda c, a: z3.BoolVal(lock_ok(c, a["self"], "lock") and tag_of(a["data"]) == "bytes"),
                    ensures=lambda c, old, a, res: z3.And(_send_post(c, old, a, res), z3.Not(sock_none(c, old, a))),
                    result=lambda c, a: c.fresh(("oneof", ["int", "none"]), "sent"),
